@@ -184,6 +184,7 @@ func Drive(chk *Check, tier string, root string, variant string) int {
 	self, _ := os.Executable()
 	sort.SliceStable(allVio, func(i, j int) bool { return len(allVio[i].Choices) < len(allVio[j].Choices) })
 	reported := map[string]int{}
+	seenPath := map[string]bool{}
 	var matchedKnown []string
 	for _, v := range allVio {
 		isKnown := false
@@ -203,8 +204,12 @@ func Drive(chk *Check, tier string, root string, variant string) int {
 		if reported[v.Class] >= 3 {
 			continue
 		}
-		reported[v.Class]++
 		path := writeReplay(root, v)
+		if seenPath[path] {
+			continue
+		}
+		seenPath[path] = true
+		reported[v.Class]++
 		// confirm determinism: replay 3x in fresh processes
 		ok := 0
 		if v.Crash {
